@@ -39,10 +39,10 @@ class StripCommentsFilter:
             if token.ttype in sql_hints:
                 is_sql_hint = True
             elif isinstance(token, sql.Comment):
-                comment_tokens = token.tokens
-                if len(comment_tokens) > 0:
-                    if comment_tokens[0].ttype in sql_hints:
-                        is_sql_hint = True
+                # a group of consecutive comments: keep it if it holds a
+                # hint (its other comments have already been stripped)
+                if any(t.ttype in sql_hints for t in token.tokens):
+                    is_sql_hint = True
 
             if is_sql_hint:
                 # using current index as start index to search next token for
